@@ -1,0 +1,56 @@
+//go:build verif
+
+package writer
+
+import (
+	"unsafe"
+
+	"github.com/basecomplextech/spec/internal/vpool"
+)
+
+func vstateMask(s *writerState) (m int64) {
+	if s.buf != nil {
+		m |= 1
+	}
+	if s.releaseState {
+		m |= 2
+	}
+	if s.releaseWriter {
+		m |= 4
+	}
+	if len(s.stack.stack) != 0 {
+		m |= 8
+	}
+	if len(s.elements.stack) != 0 {
+		m |= 16
+	}
+	if len(s.fields.stack) != 0 {
+		m |= 32
+	}
+	return m
+}
+
+// vpoolGetState reports a writer state taken from its pool with the attributes which are not fresh.
+func vpoolGetState(s *writerState) {
+	vpool.Emit("writer.state", unsafe.Pointer(s), false, vstateMask(s))
+}
+
+func vpoolPutState(s *writerState) {
+	vpool.Emit("writer.state", unsafe.Pointer(s), true, 0)
+}
+
+// vpoolGetWriter reports a writer taken from its pool: a sticky error (bit 0) or a state which is not fresh (bits 4..).
+func vpoolGetWriter(w *writer) {
+	var m int64
+	if w.err != nil {
+		m |= 1
+	}
+	if w.writerState != nil {
+		m |= vstateMask(w.writerState) << 4
+	}
+	vpool.Emit("writer.writer", unsafe.Pointer(w), false, m)
+}
+
+func vpoolPutWriter(w *writer) {
+	vpool.Emit("writer.writer", unsafe.Pointer(w), true, 0)
+}
